@@ -425,10 +425,28 @@ VH_ENTRY vh_slot_attr() {
   (void)before;
   int16 ua_before[NU ? NU : 1]; for (unsigned k = 0; k < NU; ++k) ua_before[k] = cur->m_userAttr[k];
   int16 value = (int16)nondet_u16();
+  const bool had_record = cur->m_justs != 0;
   cur->setAttr(w.seg, attrCode(code), sub, value, smap);
   ASSERT(inv_stream(w) && inv_forest(w), "setAttr (other than attach.to) leaves links and attachments alone");
+  // first justification attribute written on a slot: the record comes from the segment's pool; with no justification levels in the font every
+  // other value of the record reads 0 (not whatever an earlier segment left in the heap: C08)
+  if (!had_record && code >= gr_slatJStretch && code < gr_slatJStretch + 5 && code != gr_slatJWidth && cur->m_justs != 0) {
+    const unsigned set = code - gr_slatJStretch;
+    for (unsigned j = 0; j < 4; ++j) if (j != set) ASSERT(cur->getJustify(w.seg, 0, j) == 0, "a fresh justification record holds zeros except for the value just set");
+    ASSERT(cur->getJustify(w.seg, 0, set) == value, "justification attribute: get after set");
+  }
   for (unsigned k = 0; k < NU; ++k)
     if (!((code == gr_slatUserDefn && sub == k) || (code == gr_slatUserDefnV1 && k == 0))) ASSERT(cur->m_userAttr[k] == ua_before[k], "user attributes: only the named entry changes");
   if (code == gr_slatUserDefn && sub < NU) ASSERT(cur->m_userAttr[sub] == value && cur->getAttr(w.seg, gr_slatUserDefn, sub) == value, "user attribute: get after set");
+  VH_END();
+}
+
+// ---- Slot::index / gr_slot_index: the stream index set by associateChars reads back unchanged for every 32-bit value (segments are not limited
+// to 65536 slots)
+VH_ENTRY vh_slot_index() {
+  World w; vh_make_face(w); vh_make_segment(w);
+  uint32_t v = nondet_u32();
+  w.sl[0]->index(v);
+  ASSERT(gr_slot_index(static_cast<const gr_slot *>(w.sl[0])) == v, "gr_slot_index returns the index the slot was given");
   VH_END();
 }
